@@ -37,8 +37,27 @@ def call0(f):
     return f()
 
 
+def run_cls(cls, a=0):
+    """Untracked runner that is handed a class by name, instantiates it and calls its method."""
+    return cls(a).meth()
+
+
 class CustomError(Exception):
     """An application-defined exception class."""
+
+
+class FalsyError(Exception):
+    """An application-defined exception whose instances are falsy (e.g. an aggregate of zero rejected rows)."""
+
+    def __bool__(self):
+        return False
+
+
+class EmptyAggregate(Exception):
+    """An exception that is a container of sub-errors: len() == 0 makes the instance falsy."""
+
+    def __len__(self):
+        return 0
 
 
 class CustomBase(BaseException):
